@@ -11,6 +11,11 @@
 (*    cdrsort     (stable-sort < (cdr (lit)))      the seal travels        *)
 (*    slicepush   (append! (slice 'vector (lit) 0 2) 9)   copies           *)
 (*    append0     (stable-sort < (append 'vector (lit)))  copies           *)
+(*    slicefull / slicetail / slicecdr                                      *)
+(*                (stable-sort < (slice 'vector V i j)) where the view       *)
+(*                reaches the END of the literal (all of it, its tail, the   *)
+(*                tail of its cdr): a copy must be sorted, whatever the      *)
+(*                view's extent                                              *)
 (*    restsort    (stable-sort < (rest (lit)))                             *)
 (*    macroarg    a macro sorting a literal it received as an argument     *)
 (*    applyrest / applycdr / applyreq / funcallopt / mapsort / foldsort     *)
@@ -42,6 +47,7 @@ CONSTANTS R,          \* number of runtimes
           EMIT
 
 OPS == {"sort", "cdrsort", "slicepush", "append0", "restsort", "macroarg", "define", "read", "reload",
+        "slicefull", "slicetail", "slicecdr",
         \* the literal crossing a function-application boundary before it reaches the in-place sort
         "applyrest", "applycdr", "applyreq", "funcallopt", "mapsort", "foldsort"}
 LIT == <<3, 1, 2>>
@@ -62,6 +68,9 @@ Result(op, lit, counter) ==
     [] op = "restsort" -> Sorted(TailOf(lit))
     [] op = "slicepush" -> SubSeq(lit, 1, 2) \o <<9>>
     [] op = "append0" -> Sorted(lit)
+    [] op = "slicefull" -> Sorted(lit)
+    [] op = "slicetail" -> Sorted(TailOf(lit))
+    [] op = "slicecdr" -> Sorted(TailOf(lit))
     [] op = "macroarg" -> Sorted(lit)
     [] op \in {"applyrest", "funcallopt", "mapsort", "foldsort"} -> Sorted(lit)
     [] op \in {"applycdr", "applyreq"} -> Sorted(TailOf(lit))
@@ -84,10 +93,10 @@ Step(r) == \E op \in OPS :
   LET me == [rt[r] EXCEPT !.script = Append(@, op)] IN
   /\ rt[r].pc <= LEN
   /\ LET res == Result(op, prog, me.counter)
-         writes == ~COW /\ op \in {"sort", "append0", "macroarg", "applyrest", "funcallopt", "mapsort", "foldsort"}        \* in-place sort through the literal
+         writes == ~COW /\ op \in {"sort", "append0", "slicefull", "macroarg", "applyrest", "funcallopt", "mapsort", "foldsort"}        \* in-place sort through the literal
          prog2 == IF writes THEN Sorted(prog) ELSE prog IN
      /\ prog' = prog2
-     /\ hdrs' = hdrs \cup {[rt |-> r, sealed |-> (COW \/ op \notin {"slicepush", "append0"})]}
+     /\ hdrs' = hdrs \cup {[rt |-> r, sealed |-> (COW \/ op \notin {"slicepush", "append0", "slicefull", "slicetail", "slicecdr"})]}
      /\ rt' = [rt EXCEPT ![r] = [me EXCEPT !.pc = @ + 1, !.results = Append(@, res),
                                           !.counter = IF op = "define" THEN @ + 1 ELSE IF op = "reload" THEN 0 ELSE @]]
      /\ sched' = Append(sched, r)
